@@ -64,7 +64,8 @@ S_NEED = "house h\nframer t be active first f0\nframe f0\n{CMD}\nframe f1\n"
 # verb -> (table name, script, command prefix tokens, {connective: [bodies]}, tails)
 VERBS = {
     "framer": ("verb_framer", S_FRAMER, ["framer", "t"], {
-        "at": [["0.5"]], "be": [["inactive"], ["active"]], "in": [["front"]], "first": [["s"]],
+        "at": [["0.5"], ["4.0"], ["0.0"]], "be": [["inactive"], ["active"], ["slave"]], "in": [["front"], ["back"]],
+        "first": [["s"], ["s2"]],
         "via": [[".n.a"], ["n", "of", "framer"], ["n", "of", "me"], ["n", "of", "frame"]]}, [[]]),
     "frame": ("verb_frame", S_FRAME, ["frame", "x"], {
         "in": [["over"]], "via": [[".n"], ["n", "of", "framer"], ["n", "of", "frame"], ["n", "of", "frame", "over"]]}, [[]]),
@@ -76,12 +77,15 @@ VERBS = {
         "per": [["c", "c3"], ["color", "red"], ["c", "3"]], "for": [["u", "in", ".q"], [".q"]],
         "cum": [["d", "4"]], "qua": [["z", "in", ".r"]]}, [[]]),
     "logger": ("verb_logger", S_LOGGER, ["logger", "lg"], {
-        "at": [["1.0"]], "to": [["/tmp/ioflo_c15/"]], "be": [["inactive"]], "in": [["back"]],
-        "flush": [["2.0"]], "keep": [["2"]], "cycle": [["5.0"]], "size": [["100"]], "reuse": [[]]}, [[]]),
+        # numeric values chosen so that clauses COULD interact: period above and below flush / cycle,
+        # flush below and above its 1.0 floor, zero and non-zero keep / size
+        "at": [["4.0"], ["0.5"]], "to": [["/tmp/ioflo_c15/"]], "be": [["inactive"]], "in": [["back"]],
+        "flush": [["2.5"], ["0.5"]], "keep": [["2"], ["0"]], "cycle": [["3.0"], ["0.25"]],
+        "size": [["100"], ["0"]], "reuse": [[]]}, [[]]),
     "log": ("verb_log", S_LOG, ["log", "st"], {
         "as": [["text"], ["binary"]], "to": [["fname"]], "on": [["update"], ["never"]]}, [[]]),
     "server": ("verb_server", S_SERVER, ["server", "sv"], {
-        "at": [["1.0"]], "to": [["/tmp/ioflo_c15/"]], "be": [["inactive"]], "in": [["back"]],
+        "at": [["1.0"], ["0.125"]], "to": [["/tmp/ioflo_c15/"]], "be": [["inactive"]], "in": [["back"]],
         "rx": [[":55551"], ["localhost:55553"]], "tx": [[":55552"]],
         # per and for carry DISTINCT keys (same key twice is last-wins by design)
         "per": [["prefix", "\"/tmp/ioflo_c15/per\""], ["stuff", "5"]],
